@@ -122,11 +122,21 @@ Proof.
     + exfalso. clear -H. induction r; simpl in H; [discriminate|auto].
 Qed.
 
-Lemma Sub_rename_tx s mb old new s' : rename_tx s mb old new = Some s' -> Sub s s'.
+Lemma Sub_after_parents ps t : forall s, Sub s (after_parents s ps t).
 Proof.
-  unfold rename_tx. destruct (rename_row s mb new) as [s1|] eqn:R; [|discriminate].
-  intros H. eapply Sub_trans; [eapply Sub_rename_row; eauto|].
-  exact (Sub_rename_fold new old _ (Some s1) s1 s' eq_refl H).
+  induction ps as [|p r IH]; intros s; [apply Sub_refl|].
+  unfold after_parents in *. cbn [fold_left]. destruct (find_name s p); [apply IH|].
+  destruct (create_mailbox_row s p t) as [[s' i]|] eqn:Cr; [|apply IH].
+  eapply Sub_trans; [eapply Sub_create; eauto|apply IH].
+Qed.
+
+Lemma Sub_rename_tx7 s mb old new ps t s' : rename_tx7 s mb old new ps t = Some s' -> Sub s s'.
+Proof.
+  unfold rename_tx7. set (s1 := after_parents s ps t).
+  destruct (rename_row s1 mb new) as [s2|] eqn:R; [|discriminate].
+  intros H. eapply Sub_trans; [apply Sub_after_parents|]. fold s1.
+  eapply Sub_trans; [eapply Sub_rename_row; eauto|].
+  exact (Sub_rename_fold new old _ (Some s2) s2 s' eq_refl H).
 Qed.
 
 Lemma find_link_in s mb u l : find_link s mb u = Some l -> In l (links s).
@@ -270,7 +280,7 @@ Proof.
   - apply SubCase. apply Sub_uidstore_one.
   - apply SubCase. apply Sub_delete.
   - apply SubCase. eapply Sub_trans; [apply Sub_delete|]. now apply Sub_same_links.
-  - apply OptCase. intros s' E. eapply Sub_rename_tx; eauto.
+  - destruct (_ && _); [|exact W]. apply OptCase. intros s' E. eapply Sub_rename_tx7; eauto.
   - apply OptCase. intros s' E. eapply Sub_trans; [apply Sub_set_next|eapply Sub_reparent; eauto].
   - destruct (existsb _ _); [exact W|]. destruct W. constructor; auto.
   - destruct W. constructor; auto.
@@ -396,9 +406,9 @@ Proof.
   - destruct old; [reflexivity|]. destruct new; [reflexivity|]. destruct (str_eqb _ _); [reflexivity|].
     destruct (str_eqb _ _).
     + destruct (find_name s _); [reflexivity|]. destruct (find_name s INBOX); [|reflexivity].
+      rewrite forallb_app, parent_steps_plain.
       destruct (create_mailbox_row _ _ _) as [[? ?]|]; reflexivity.
-    + destruct (find_name s _); [|reflexivity]. destruct (find_name s _); [reflexivity|].
-      rewrite forallb_app, parent_steps_plain. reflexivity.
+    + destruct (find_name s _); [|reflexivity]. destruct (find_name s _); reflexivity.
 Qed.
 
 Lemma opened_WF d t1 t2 t3 t4 t5 : WF d -> WF (opened d t1 t2 t3 t4 t5).
